@@ -276,6 +276,54 @@ theorem check_sound (P : Prog) (cfg : Cfg) (h : check P cfg = true) (ins : List 
       unfold absEnv at he
       rw [harun] at he; cases he; exact henvF
 
+/-- what one claim of a multi-claim check guarantees -/
+structure ClaimHolds (P : Prog) (ins : List Int) (c : Claim) : Prop where
+  outBounds : ∀ k, k < c.obs.length →
+      c.outLo.getD k 0 ≤ P.val ins (c.obs.getD k 0) ∧ P.val ins (c.obs.getD k 0) ≤ c.outHi.getD k 0
+  value : c.modulus ∣ (weightedSum (P.val ins) c.obs c.weights - evalPoly (fun i => ins.getD i 0) c.spec)
+
+structure MultiGuarantee (P : Prog) (inLo inHi : List Int) (claims : List Claim)
+    (extra : List AV → Nat → Bool) (ins : List Int) : Prop where
+  noOverflow : P.run true ins = P.run false ins
+  claims : ∀ c ∈ claims, ClaimHolds P ins c
+  inputs : ∀ i, i < P.nIn → P.val ins i = ins.getD i 0
+  env : ∃ env', EnvOK (P.val ins) env' (P.nIn + P.body.length) ∧ extra env' (P.nIn + P.body.length) = true
+
+theorem checkMulti_sound (P : Prog) (inLo inHi : List Int) (claims : List Claim)
+    (extra : List AV → Nat → Bool) (h : checkMulti P inLo inHi claims extra = true) (ins : List Int)
+    (hlen : ins.length = P.nIn) (hw : inputsWithin inLo inHi ins) (hside : SideOK P ins) :
+    MultiGuarantee P inLo inHi claims extra ins := by
+  unfold checkMulti at h
+  simp only [Bool.and_eq_true, beq_iff_eq] at h
+  obtain ⟨⟨⟨hl, hh⟩, hio⟩, hrun⟩ := h
+  split at hrun
+  · simp at hrun
+  · next env' harun =>
+    simp only [Bool.and_eq_true, List.all_eq_true] at hrun
+    obtain ⟨hcl, hex⟩ := hrun
+    have htr0 : ∀ i, i < P.nIn → cget ins.reverse P.nIn i = ins.getD i 0 := by
+      intro i hi; unfold cget; exact getD_reverse ins 0 P.nIn i hlen hi
+    have hρin : ∀ i, i < P.nIn → P.val ins i = ins.getD i 0 := by
+      intro i hi
+      show cget (exec false P.signed P.body ins.reverse P.nIn) (P.nIn + P.body.length) i = _
+      rw [exec_suffix false P.signed P.body ins.reverse P.nIn i hi, htr0 i hi]
+    have henv0 : EnvOK (P.val ins) (initEnv inLo inHi) P.nIn :=
+      initEnv_ok (P.val ins) inLo inHi ins P.nIn hl hh hlen hw hρin
+    obtain ⟨hM, henvF⟩ := arun_sound P.signed (P.val ins) P.body (initEnv inLo inHi) ins.reverse
+      P.nIn env' henv0 (fun i hi => by rw [htr0 i hi, hρin i hi]) (fun i _ => rfl) hside harun
+    refine ⟨hM, ?_, hρin, ⟨env', henvF, hex⟩⟩
+    intro c hc
+    have hck := hcl c hc
+    unfold claimOk at hck
+    simp only [Bool.and_eq_true, beq_iff_eq] at hck
+    obtain ⟨⟨⟨hout, hwl⟩, hspec⟩, hdiv⟩ := hck
+    obtain ⟨hoLt, hoB⟩ := outsOk_sound (P.val ins) env' _ henvF c.obs c.outLo c.outHi hout
+    refine ⟨hoB, ?_⟩
+    have hw' := weighted_sound (P.val ins) env' _ henvF c.obs c.weights hoLt
+    have hd := allDiv_sound (P.val ins) c.modulus _ hdiv
+    rw [evalPoly_psub, hw', evalPoly_congr (P.val ins) (fun i => ins.getD i 0) P.nIn hρin c.spec hspec] at hd
+    exact hd
+
 /-- a program cut after `k` ops computes the same values for the variables it still has -/
 theorem val_take (P : Prog) (ins : List Int) (hlen : ins.length = P.nIn) (k i : Nat) (hk : k ≤ P.body.length)
     (hi : i < P.nIn + k) : (P.take k).val ins i = P.val ins i := by
